@@ -65,6 +65,7 @@ def rule_remove_precondition(ctx):
     r = ctx.rule("remove-precondition", "real braces become virtual only after the body scan of examine_brace reached the matching close brace "
                  "with at least one statement, under a mod_full_brace_* remove setting; in an if-chain only when no member needs braces")
     f = db.fn("examine_brace", file=BR)
+    r.names(f, "pc", "next", "bopen", "semi_count", "if_count")
     for n in [x for x in f.all_nodes() if x["k"] == "call" and x.get("c") in ("convert_brace", "Chunk::Delete")]:
         r.seen()
         cs = _conds(f, n)
